@@ -103,6 +103,9 @@ func SubscriptionManager.Subscribe$1
   requires has((*s).subscribers.m, *clientID) ==> (forall k Str :: has((*s).subscribers.m[*clientID].m, k) ==> has((*s).topics.m, k) && (*s).topics.m[k] >= (*s).subscribers.m[*clientID].m[k])
   modifies *removedTopics, *unsubscribedTopics, *clientDropped, *topicAdded, *clientConnected, shrinkingmap.ShrinkingMap.m, shrinkingmap.ShrinkingMap.deletedKeys, allmaps((*s).topics.m)
   ensures *clientConnected <==> old(has((*s).subscribers.m, *clientID))
+  -- a client is dropped only for a topic it did not hold yet (and only with a limit configured): subscribing again to a
+  -- topic it holds never drops it, however many topics it has
+  ensures *clientDropped ==> old(has((*s).subscribers.m, *clientID)) && !old(has((*s).subscribers.m[*clientID].m, *topic)) && (*s).maxTopicSubscriptionsPerClient != 0
   ensures !old(has((*s).subscribers.m, *clientID)) ==> !*topicAdded && !*clientDropped && (*s).topics.m == old((*s).topics.m) && (forall k Str :: (has((*s).topics.m, k) <==> old(has((*s).topics.m, k))) && (has((*s).topics.m, k) ==> (*s).topics.m[k] == old((*s).topics.m[k])))
   ensures old(has((*s).subscribers.m, *clientID)) && !*clientDropped ==> (*s).topics == old((*s).topics) && (*s).topics.m == old((*s).topics.m) && has((*s).topics.m, *topic) && (*s).topics.m[*topic] == (old(has((*s).topics.m, *topic)) ? old((*s).topics.m[*topic]) + 1 : 1) && (*topicAdded <==> !old(has((*s).topics.m, *topic)))
   ensures old(has((*s).subscribers.m, *clientID)) && !*clientDropped ==> (forall k Str :: k != *topic ==> (has((*s).topics.m, k) <==> old(has((*s).topics.m, k))) && (has((*s).topics.m, k) ==> (*s).topics.m[k] == old((*s).topics.m[k])))
